@@ -8,6 +8,12 @@ One `Action` per atomic action of the Go code; `fire` is its effect (`none` = no
 transition relation, `Reach` the reachable states.  Goroutines (queuers, channel entries, workers) are indexed
 by fresh naturals.  Parse-time graph discovery is abstracted: `deps` is the resolved dependency relation and
 `activate` may arrive from outside for any target at any time (original targets, parse tasks).
+Three liveness mechanisms that lie outside the task counting are modelled too (C05): the set of *active targets*
+kept by `forwardResults`, which arms the idle-time cycle check only while it is empty (`active`, `cycleCheck`); the
+goroutines that wait for a target to be built — the parse of a package that subincludes it, `WaitForBuiltTarget` — and
+are woken through the `pendingTargets` channel (`subWait`, the `waitTarget` phase, `woken`); and the test by which such a
+goroutine does not wait at all.  How a *failed* target is treated by each of them is read from the code
+(`Cfg.failClears`, `Cfg.failWakes`, `Cfg.lateOK`, see `Lemmas/SchedFacts.lean`).
 The two-CAS sequence `SyncUpdateState(Inactive, Active) || SyncUpdateState(Semiactive, Active)` is one step: its
 outcome is that of a single attempt made at the instant of the CAS that succeeds (or of the second one).
 Unboundedly many workers (a superset of every `-p`).
@@ -58,6 +64,7 @@ inductive QPh where
   | queueDeps (rest : List T)     -- `for _, dep := range target.DeclaredDependencies() { state.queueTarget(dep…) }`
   | waitDeps (rest : List T)      -- `for _, t := range target.Dependencies() { t.WaitForBuild(…) … }`
   | done                          -- about to run the deferred `state.taskDone(true)`
+  | waitTarget (d : T)            -- a parse task inside `WaitForBuiltTarget(d)`: `waitOnChan(pendingTargets[d])`
 deriving DecidableEq, Repr
 
 structure Queuer where
@@ -99,18 +106,31 @@ structure St where
   failed : Bool                  -- `progress.failed` / `buildFailed`: some failure was logged (decides the exit status)
   ext : Bool                     -- ghost: the queues were closed from outside the counting (`stop`, `asyncError`) or a task was dropped
   why : T → T                    -- ghost: the failed dependency that made the target DependencyFailed
+  active : T → Bool              -- `forwardResults`: the target is in `activeTargets`
+  sw : T → Bool                  -- `WaitForBuiltTarget(t)` has been called (if it had to wait: `pendingTargets[t]` exists)
+  woken : T → Bool               -- the `pendingTargets[t]` channel is closed
 
 def St.init : St :=
   { st := fun _ => .inactive, fin := fun _ => false, qs := fun _ => none, nextQ := 0, chan := fun _ => none,
     nextM := 0, ws := fun _ => none, nextW := 0, numPending := 1, stopped := false, initDone := false,
     starts := fun _ => 0, nres := fun _ => 0, res := fun _ => none,
-    bq := fun _ => 0, tm := fun _ => 0, wk := fun _ => 0, failed := false, ext := false, why := fun _ => 0 }
+    bq := fun _ => 0, tm := fun _ => 0, wk := fun _ => 0, failed := false, ext := false, why := fun _ => 0,
+    active := fun _ => false, sw := fun _ => false, woken := fun _ => false }
 
 /-- static parameters of one invocation -/
 structure Cfg where
   n : Nat                  -- targets are `0 … n-1`
   deps : T → List T
   needBuild : Bool
+  /-- a failure result removes its target from `forwardResults`' active set (the set is keyed by label and results
+      that are not active delete by label; failures are logged without a target pointer) -/
+  failClears : Bool := true
+  /-- `build.Build` signals the waiters of a target (`pendingTargets`) when it has failed -/
+  failWakes : Bool := true
+  /-- `WaitForBuiltTarget` does not wait for a target that has already failed -/
+  lateOK : Bool := true
+  /-- the dependency graph has a cycle that the detector reports (C06) -/
+  hasCycle : Bool := false
 
 inductive Action where
   | activate (t : T) (force : Bool)   -- `queueResolvedTarget` called from outside a queuer
@@ -124,6 +144,8 @@ inductive Action where
   | workerDone (w : Nat)              -- `completeAction`: `state.TaskDone()`
   | initDone                          -- `findOriginalTasks`: `state.TaskDone()`
   | stop                              -- `Stop()` from the display loop, `asyncError` or the cycle check
+  | subWait (t : T)                   -- a parse task (counted during the initial scan) calls `WaitForBuiltTarget(t)`
+  | cycleCheck                        -- `forwardResults`: idle with no active target, `checkForCycles` finds a cycle
 deriving Repr
 
 section
@@ -160,7 +182,8 @@ def queuerStep (s : St) (i : Nat) (q : Queuer) : Option St :=
       if (s.st d).isBad then
         some { s with st := upd s.st q.t .depFailed, fin := upd s.fin q.t true,
                       nres := upd s.nres q.t (s.nres q.t + 1), res := upd s.res q.t (some .depFailed),
-                      qs := upd s.qs i (some { q with ph := .done }), why := upd s.why q.t d }
+                      qs := upd s.qs i (some { q with ph := .done }), why := upd s.why q.t d,
+                      active := upd s.active q.t false, woken := upd s.woken q.t (s.woken q.t || s.sw q.t) }
       else some { s with qs := upd s.qs i (some { q with ph := .waitDeps r }) }
     else none
   | .waitDeps [] =>
@@ -170,6 +193,11 @@ def queuerStep (s : St) (i : Nat) (q : Queuer) : Option St :=
                     qs := upd s.qs i (some { q with ph := .done }) }
     else some { s with qs := upd s.qs i (some { q with ph := .done }) }
   | .done => some (taskDone { s with qs := upd s.qs i none })
+  | .waitTarget d =>
+    if s.woken d then some { s with qs := upd s.qs i (some { q with ph := .done }) } else none
+
+/-- `forwardResults` has no active target -/
+def activeEmpty (s : St) : Bool := (List.range c.n).all fun t => !s.active t
 
 def fire (s : St) : Action → Option St
   | .activate t force => if t < c.n then some (qrt c s t force) else none
@@ -198,7 +226,8 @@ def fire (s : St) : Action → Option St
   | .workerStart w =>
     match s.ws w with
     | some ⟨t, .taken⟩ =>
-      some { s with st := upd s.st t .building, starts := upd s.starts t (s.starts t + 1), ws := upd s.ws w (some ⟨t, .building⟩) }
+      some { s with st := upd s.st t .building, starts := upd s.starts t (s.starts t + 1), ws := upd s.ws w (some ⟨t, .building⟩),
+                    active := upd s.active t true }
     | _ => none
   | .workerOk w ts cached =>
     match s.ws w with
@@ -206,14 +235,17 @@ def fire (s : St) : Action → Option St
       if ts.isBuilt then
         some { s with st := upd s.st t ts, fin := upd s.fin t true, nres := upd s.nres t (s.nres t + 1),
                       res := upd s.res t (some (if cached then .cached else .built)),
-                      ws := upd s.ws w (some ⟨t, .finished⟩) }
+                      ws := upd s.ws w (some ⟨t, .finished⟩),
+                      active := upd s.active t false, woken := upd s.woken t (s.woken t || s.sw t) }
       else none
     | _ => none
   | .workerFail w =>
     match s.ws w with
     | some ⟨t, .building⟩ =>
       some { s with st := upd s.st t .failed, fin := upd s.fin t true, nres := upd s.nres t (s.nres t + 1),
-                    res := upd s.res t (some .failed), ws := upd s.ws w (some ⟨t, .finished⟩), failed := true }
+                    res := upd s.res t (some .failed), ws := upd s.ws w (some ⟨t, .finished⟩), failed := true,
+                    active := upd s.active t (if c.failClears then false else s.active t),
+                    woken := upd s.woken t (s.woken t || (c.failWakes && s.sw t)) }
     | _ => none
   | .workerDone w =>
     match s.ws w with
@@ -221,6 +253,20 @@ def fire (s : St) : Action → Option St
     | _ => none
   | .initDone => if s.initDone then none else some (taskDone { s with initDone := true })
   | .stop => some { s with stopped := true, ext := true }
+  | .subWait t =>
+    -- state.go `WaitForBuiltTarget`: return at once if the target is built (or, `lateOK`, has failed); otherwise
+    -- register the channel, `queueTarget(l, …, forceBuild)`, look again, wait on the channel
+    if t < c.n ∧ s.sw t = false ∧ s.initDone = false then
+      if (s.st t).isBuilt || (c.lateOK && (s.st t).isBad) then some { s with sw := upd s.sw t true }
+      else
+        let s1 := qrt c s t true
+        some { s1 with sw := upd s1.sw t true, qs := upd s1.qs s1.nextQ (some ⟨t, false, true, .waitTarget t⟩),
+                       nextQ := s1.nextQ + 1, numPending := s1.numPending + 1 }
+    else none
+  | .cycleCheck =>
+    -- state.go `forwardResults`: the timer is armed only while no target is active; `checkForCycles` → `asyncError`
+    if !s.stopped && c.hasCycle && activeEmpty c s then some { s with stopped := true, failed := true, ext := true }
+    else none
 
 /-! The wait loop as the regenerated facts describe it.  The pinned code tests nothing before `WaitForBuild`; a
 state test placed there (`if t.State() >= X { continue }`) would let the queuer pass a dependency in a state of
